@@ -16,7 +16,7 @@ use garnish_lang_compiler::build::build;
 use garnish_lang_compiler::lex::{LexerToken, TokenType};
 use garnish_lang_compiler::parse::parse;
 use garnish_lang_simple_data::symbol_value;
-use garnish_lang_traits::Instruction;
+use garnish_lang_traits::{GarnishData, Instruction};
 
 /// every variant of TokenType (same list as parses.rs, which keeps the exhaustiveness check)
 const ALL_TOKEN_TYPES: &[TokenType] = &[
@@ -52,6 +52,45 @@ fn tokens_of_fields(fields: &[&str]) -> Option<Vec<LexerToken>> {
 pub fn sym_case(f: &[&str]) -> String {
     let name = unescape(f.get(2).copied().unwrap_or(""));
     format!("{}", symbol_value(&name))
+}
+
+/// SYMNAME \t id \t <escaped symbol literal, e.g. `:name`>  ->  `simple=<name|none> basic=<name|none|err|panic>`:
+/// the name each store keeps for the symbol after `parse_add_symbol` (Simple: `get_symbols()`, Basic: `get_symbol_string`)
+pub fn symname_case(f: &[&str]) -> String {
+    use std::panic::{catch_unwind, AssertUnwindSafe};
+    let text = unescape(f.get(2).copied().unwrap_or(""));
+    if !text.starts_with(':') {
+        return "BAD-CASE".to_string();
+    }
+    let body = &text[1..];
+    let simple = {
+        let mut d = SimpleStore::create(None);
+        match catch_unwind(AssertUnwindSafe(|| d.parse_add_symbol(body))) {
+            Ok(Ok(addr)) => match d.get_symbol(addr) {
+                Ok(sym) => match d.get_symbols().get(&sym) {
+                    Some(n) => crate::esc::escape(n),
+                    None => "none".to_string(),
+                },
+                Err(_) => "err".to_string(),
+            },
+            Ok(Err(_)) => "err".to_string(),
+            Err(_) => "panic".to_string(),
+        }
+    };
+    let basic = {
+        let mut d = BasicStore::create(None);
+        match catch_unwind(AssertUnwindSafe(|| {
+            let addr = d.parse_add_symbol(body)?;
+            let sym = d.get_symbol(addr)?;
+            d.get_symbol_string(sym)
+        })) {
+            Ok(Ok(Some(n))) => crate::esc::escape(&n),
+            Ok(Ok(None)) => "none".to_string(),
+            Ok(Err(_)) => "err".to_string(),
+            Err(_) => "panic".to_string(),
+        }
+    };
+    format!("simple={} basic={}", simple, basic)
 }
 
 fn lit_on<D: Store>(kind: &str, text: &str) -> String {
